@@ -75,6 +75,18 @@ theorem decode_held (cfg : Cfg) (k : Text) (v : List String) (hk : k ≠ []) (hv
   · simp only [hlong, Bool.false_eq_true, if_false] at hfn
     rw [feed_normalDone cfg s k hp (by rw [hfn]), hfn, flush_eq, proc_nil _ _ _ (by simp), hs']
 
+/-- … and if the sequence cannot grow any further it is delivered at once, without a flush -/
+theorem decode_now (cfg : Cfg) (k : Text) (v : List String) (hk : k ≠ []) (hv : v ≠ [])
+    (hg : getMatch cfg k = v)
+    (hheld : ∀ p : Text, p <+: k → p ≠ k → p ≠ [] → isPrefixOfLonger cfg p = true)
+    (hlong : isPrefixOfLonger cfg k = false)
+    (s : St) (hs : s.pre = []) (hp : s.inPaste = false) :
+    feed cfg s k = callHandler cfg s v k := by
+  have hfn := feedNormal_held cfg k v hv hg hheld k [] s (by simp) hk hs hp
+  have hs' : { s with pre := [] } = s := by cases s; simp_all
+  simp only [hlong, Bool.false_eq_true, if_false] at hfn
+  rw [feed_normalDone cfg s k hp (by rw [hfn]), hfn, hs']
+
 /-! ### proper prefixes of reports match the prefix recognisers -/
 
 theorem prefix_dropLast {α : Type} {a b : List α} (h : a <+: b) (hne : a ≠ b) : a <+: b.dropLast := by
